@@ -109,6 +109,30 @@ pub fn replay(args: &Args) {
                     std::process::exit(2);
                 }
             }
+            // the same for a fragment file: load_fragment_file(encoded file) == load_fragment(text)
+            let fragment = format!("/begin MEASUREMENT m1 \"{inner}\" UBYTE NO_COMPU_METHOD 1 1 0 255 /end MEASUREMENT\n/* {inner} */\n{pad}");
+            std::fs::write(&file, encode(enc, &fragment)).unwrap();
+            loads += 1;
+            match (guarded(|| a2lfile::load_fragment_file(&file, None)), guarded(|| a2lfile::load_fragment(&fragment, None))) {
+                (Ok(Ok(a)), Ok(Ok(b))) => {
+                    if a != b {
+                        bad += 1;
+                        out.line(&json!({"mismatch": "module loaded from the encoded fragment file differs from the module loaded from the string", "kind": "model", "case": case}));
+                    }
+                }
+                (Ok(Err(e)), Ok(Ok(_))) => {
+                    bad += 1;
+                    out.line(&json!({"mismatch": format!("encoded fragment file does not load: {e}"), "kind": "model", "case": case}));
+                }
+                (Err(p), _) | (_, Err(p)) => {
+                    bad += 1;
+                    out.line(&json!({"mismatch": format!("panic: {p}"), "kind": "panic", "case": case}));
+                }
+                (_, Ok(Err(e))) => {
+                    eprintln!("generated fragment does not load from string: {e}");
+                    std::process::exit(2);
+                }
+            }
         }
     }
     let _ = std::fs::remove_file(&file);
